@@ -12,7 +12,7 @@ import (
 )
 
 func init() {
-	Register(&Scenario{Prop: "C13", Name: "snapshot-roundtrip", Run: scenC13, Weight: 1,
+	Register(&Scenario{Prop: "C13", Name: "snapshot-roundtrip", Run: scenC13, SoftParks: true, Weight: 1,
 		Rule: "node T (+0-2 feeders) with one event-log or key-value database; log shape drawn per run: empty, chain, fork/multi-writer via partial replication, containing replicated entries, or with replication in progress (announcement delivered, block fetches withheld); payload sizes drawn from {0,1,100,4 KiB,40 KiB,48 KiB-64 KiB around the 16-bit boundary,128 KiB,300 KiB}; SaveSnapshot on T, then clean close, reopen on the same directory, LoadFromSnapshot on the fresh store object; oracle: SaveSnapshot returns an error, or the reloaded store (after re-queued fetches come to rest) has the same entry set, heads and visible state; neither call may panic; non-trivial = log has >=2 entries or >=1 replicated entry or a payload >=40 KiB or replication in progress"})
 }
 
